@@ -77,7 +77,7 @@ man = {
     }],
     "checks": checks,
     "notes": "Genuine defects found by the monitors were repaired in /repo as separate 'fix:' commits and are listed in known_findings.json (fixed entries suppress nothing); open findings are listed there too and print KNOWN-FINDING lines.",
-    "not_applicable": [{"property_id": p["id"], "reason": PENDING_REASON} for p in props if p["id"] not in CLAIMS],
+    "not_applicable": [{"property_id": p["id"], "reason": PENDING_REASON} for p in props if p["id"] not in CLAIMS],  # empty when every property is claimed
 }
 json.dump(man, open(os.path.join(V, "MANIFEST.json"), "w"), indent=1)
 print("claimed:", sorted(CLAIMS), "pending:", [p["id"] for p in props if p["id"] not in CLAIMS])
